@@ -318,6 +318,56 @@ func ruleGobProxySymmetry(c *Ctx) {
 		c.saw(c.funcName(dfd))
 		et, earg := c.gobCodecValue(efd, "GobEncode")
 		dt, darg := c.gobCodecValue(dfd, "GobDecode")
+		// read off the effect normal form of the two codecs when both are in the supported fragment
+		if sf, ok := c.gobFactsBySim(efd, dfd); ok && sf.encType != nil && sf.decType != nil {
+			st, isSt := n.Underlying().(*types.Struct)
+			c.ob(rule, tname+":same-proxy-type", efd.Pos(), gobTypesAgree(sf.encType, sf.decType),
+				fmt.Sprintf("GobEncode sends %s but GobDecode receives %s", sf.encType, sf.decType))
+			c.ob(rule, tname+":decodes-into-fresh", dfd.Pos(), sf.decIntoRecv == "",
+				"gob decodes straight into "+sf.decIntoRecv+", storage of the receiver: gob does not reset what it decodes into (zero values are not transmitted, map entries are added), so a receiver that already holds a value keeps parts of it")
+			if isSt {
+				for i := 0; i < st.NumFields(); i++ {
+					f := st.Field(i)
+					if !f.Exported() {
+						continue
+					}
+					inE := sf.encComps[f.Name()] || sf.encComps[""]
+					inD := sf.decComps[f.Name()] || sf.decComps[""]
+					why := ""
+					if !inE {
+						why = "component never reaches the value handed to the gob encoder"
+					} else if !inD {
+						why = "component is never restored from the decoded gob value"
+					}
+					c.ob(rule, tname+":"+f.Name(), efd.Pos(), inE && inD, why)
+				}
+			}
+			if pst, ok := sf.encType.Underlying().(*types.Struct); ok {
+				for i := 0; i < pst.NumFields(); i++ {
+					f := pst.Field(i)
+					why := ""
+					if !sf.setOnEnc[f.Name()] {
+						why = "proxy field is never set by GobEncode"
+					} else if !sf.readOnDec[f.Name()] {
+						why = "proxy field is never consumed by GobDecode"
+					}
+					c.ob(rule, tname+":proxy."+f.Name(), efd.Pos(), sf.setOnEnc[f.Name()] && sf.readOnDec[f.Name()], why)
+				}
+				if isSt && hasFieldNamed(st, "Security") && hasFieldNamed(pst, "SecurityIsEmpty") {
+					var rawEnc, rawDec types.Object
+					if id, ok := unparen(earg).(*ast.Ident); ok {
+						rawEnc = c.objOf(id)
+					}
+					if darg != nil {
+						if p, ok := c.apath(darg); ok {
+							rawDec = p.Root
+						}
+					}
+					c.securityStates(rule, tname, efd, dfd, rawEnc, rawDec)
+				}
+			}
+			continue
+		}
 		if et == nil || dt == nil {
 			c.undecided(rule, tname, efd.Pos(), "cannot find the value handed to / filled by gob")
 			continue
@@ -666,6 +716,26 @@ func ruleGobViaJSON(c *Ctx) {
 	}
 	c.saw(c.funcName(enc))
 	c.saw(c.funcName(dec))
+	if sf, decided := c.gobFactsBySim(enc, dec); decided {
+		// read off the effect normal form (helpers around the gob calls inlined)
+		okEnc := false
+		if sc, isCall := sf.encPayload.(svCall); isCall && sc.idx == 0 {
+			if f, isF := sc.callee.(*types.Func); isF && f.Name() == "MarshalJSON" && f.Pkg() == c.Types {
+				switch r := sc.recv.(type) {
+				case svPath:
+					okEnc = r.root == c.recvObj(enc) && firstStep(r) == ""
+				case svAddr:
+					okEnc = r.p.root == c.recvObj(enc) && firstStep(r.p) == ""
+				}
+			}
+		}
+		c.ob(rule, "Ref.GobEncode:payload-is-MarshalJSON", enc.Pos(), okEnc, "the gob payload must be the receiver's own JSON encoding")
+		c.ob(rule, "Ref.GobDecode:json-into-receiver", dec.Pos(), sf.jsonInto, "the decoded gob payload must be handed to json.Unmarshal into the receiver")
+		for _, fd := range []*ast.FuncDecl{enc, dec} {
+			c.errDiscipline(rule, fd)
+		}
+		return
+	}
 	// encode: payload = recv.MarshalJSON()
 	_, earg := c.gobCodecValue(enc, "GobEncode")
 	ok := false
